@@ -73,6 +73,7 @@ def sexprOkB (m : Method) : SExpr → Bool
   | .join sep items => safeOkB sep && items.all atomOkB
   | .esc a _ => atomOkB a
   | .fmt f args => benignB f && fargsOkB args
+  | .fmtp _ _ => false        -- author markup with tags: see `sexprOkM` / `structure_preserved_markup`
   | .build b => bkidOkB m b
   | .frag kids => bkidsOkB m kids
 
